@@ -62,6 +62,15 @@ func (alloc *preemptAction) Execute(ssn *framework.Session) {
 	for !jobsOrderByQueues.IsEmpty() {
 		job := jobsOrderByQueues.PopNextJob()
 
+		// A non-preemptible job that would exceed its queue's quota is rejected for a reason that does not
+		// apply to preemptible jobs of the same shape: it must not become the queue's failed representative,
+		// otherwise a preemptible job with the same scheduling signature is skipped without being tried.
+		if !canPreemptWithinQuota(ssn, job) {
+			log.InfraLogger.V(3).Infof("Job <%v/%v> would have placed the queue resources over quota",
+				job.Namespace, job.Name)
+			continue
+		}
+
 		smallestFailedJobs, found := smallestFailedJobsByQueue[job.Queue]
 		if !found {
 			smallestFailedJobsByQueue[job.Queue] = common.NewMinimalJobRepresentatives()
@@ -94,6 +103,11 @@ func (alloc *preemptAction) Execute(ssn *framework.Session) {
 			smallestFailedJobs.UpdateRepresentative(job)
 		}
 	}
+}
+
+func canPreemptWithinQuota(ssn *framework.Session, preemptor *podgroup_info.PodGroupInfo) bool {
+	preemptorTasks := podgroup_info.GetTasksToAllocate(preemptor, ssn.PodSetOrderFn, ssn.TaskOrderFn, false)
+	return ssn.IsNonPreemptibleJobOverQueueQuotaFn(preemptor, preemptorTasks).IsSchedulable
 }
 
 func attemptToPreemptForPreemptor(
